@@ -672,6 +672,7 @@ func runC15(c *Ctx) Result {
 		Key  string
 	}
 	var graves []c15Grave
+	var holed [][]interface{}
 	var hist []string
 	holes := false
 	sample := map[string]interface{}{"doc": clip(doc, 160), "dup_keys": dup}
@@ -749,6 +750,19 @@ func runC15(c *Ctx) Result {
 				o.Path, o.Key = gr.Path, gr.Key
 				o.Kind = []int{9, 0, 13, 11, 9, 0}[g.d(6)]
 			}
+		}
+		// arrays that had an element removed (a hole in the chunk list): index translation in
+		// Move / Index / SetByIndex / Pop / Add / iteration is exercised right there
+		if len(holed) > 0 && g.d(5) == 0 {
+			hp := holed[g.d(len(holed))]
+			if tv := model.at(hp); tv != nil && tv.K == 'a' && len(tv.Arr) > 0 {
+				o.Path = hp
+				o.Kind = []int{16, 16, 16, 1, 4, 10, 15, 12, 14, 6}[g.d(10)]
+				o.I, o.J = g.d(len(tv.Arr)), g.d(len(tv.Arr))
+			}
+		}
+		if tv := model.at(o.Path); tv != nil && tv.K == 'a' && o.Kind == 14 && o.I >= 0 && o.I < len(tv.Arr)-1 {
+			holed = append(holed, o.Path)
 		}
 		if tv := model.at(o.Path); tv != nil && tv.K == 'o' {
 			switch o.Kind {
